@@ -7,9 +7,9 @@ from vlib import core, gen
 
 PROP = "C03"
 META = {
-    "technique": "Coq proof: integer arithmetic with explicit uint32/uint64 wraps over an executable model of createBufferManager/mappingBufferManager/create*/mapping* queue code, induction over the (size, percent) list; tie: generated constants and per-side field offsets + differential execution of the real functions on generated configurations",
+    "technique": "Coq proof: integer arithmetic with explicit uint32/uint64 wraps over an executable model of createBufferManager/mappingBufferManager/create*/mapping* queue code, induction over the (size, percent) list; tie: generated constants, per-side field offsets, percent literals and queue half indices + differential execution of the real functions on generated configurations",
     "level_text": "Theorems C03_buffers_partial / C03_peer_view_partial / C03_initial_chain / C03_queues_partial hold for every pair list, every percentage, every initial memory content and every mapping length below 4 GiB - 36 B (queues: 24+12*cap < 2^32); the full statements are kept and refuted by computed 4 GiB witnesses (C03_*_refuted). The model is tied to /repo by regenerated constants/offsets (a creator/mapper offset mismatch breaks the proof) and by running the real functions on hundreds of configurations (heap bytes, /dev/shm files, memfds) whose outcome class and class/queue geometry must equal the model's; an independent oracle checks disjointness, bounds, header placement, peer equality, the initial free chain and queue cross-wiring on the Go structures of every case.",
-    "level_note": "Trusted: coqc kernel; cell-granular memory (aligned 4-byte header words); offset argument 0 (all callers); amd64 branch of mappingQueueFromBytes; mmap/ftruncate/memfd semantics of the kernel; the literal 100 of createBufferManager is not regenerated; configurations are sampled. Guards forced by the proofs (4 GiB mappings / >=357 913 940-entry queues / >=65 536 classes) are degenerate and reported as findings, not proved safe.",
+    "level_note": "Trusted: coqc kernel; cell-granular memory (aligned 4-byte header words); offset argument 0 (all callers); amd64 branch of mappingQueueFromBytes; mmap/ftruncate/memfd semantics of the kernel; configurations are sampled. Guards forced by the proofs (4 GiB mappings / >=357 913 940-entry queues / >=65 536 classes) are degenerate and reported as findings, not proved safe.",
 }
 
 
@@ -36,8 +36,9 @@ def bcase_to_coq(c):
 
 def qcase_to_coq(c):
     mgr = c["kind"] != "q"
-    return ("{| qc_manager := %s; qc_cap := %s; qc_dataLen := %s; qc_fill := %s; qc_create := %d; qc_a := %s; qc_map := %d; qc_b := %s; qc_memSize := %s |}"
-            % ("true" if mgr else "false", core.z(c["qcap"]), core.z(c["qdatalen"]), core.z(0 if mgr else 0xEEEEEEEE),
+    kind = {"q": 0, "qmfile": 1, "qmmemfd": 2}[c["kind"]]
+    return ("{| qc_kind := %d; qc_cap := %s; qc_dataLen := %s; qc_fill := %s; qc_create := %d; qc_a := %s; qc_map := %d; qc_b := %s; qc_memSize := %s |}"
+            % (kind, core.z(c["qcap"]), core.z(c["qdatalen"]), core.z(0 if mgr else 0xEEEEEEEE),
                KIND[c.get("qcreate")], core.coq_list([que(q) for q in c.get("qa") or []]),
                KIND[c.get("qmap")], core.coq_list([que(q) for q in c.get("qb") or []]), core.z(c["qmemsize"])))
 
@@ -99,6 +100,15 @@ def run_harness(n, seed, tag):
     return cases, None
 
 
+# behaviours outside the proved guards that were reproduced on the real code with inputs VerifyConfig accepts
+# (QueueCap is not bounded by VerifyConfig): stable signatures for known_findings.json
+DEGEN_SIG = {
+    "createQueueFromBytes panics when 24+12*cap wraps in uint32": "C03:queue-cap-wrap-slice-bounds-panic",
+    "queue: the ring does not hold cap elements when 24+12*cap wraps in uint32": "C03:queue-cap-wrap-short-ring",
+    "queue: put panics on a fresh queue when 24+12*cap wraps in uint32": "C03:queue-cap-wrap-first-put-panics",
+}
+
+
 def signature(msg):
     # stable class of the failure: the oracle's message up to the first colon-separated detail, no numbers
     parts = msg.split(": ")
@@ -131,10 +141,12 @@ def check(run):
         for m in c.get("degen") or []:
             # misbehaviour outside the proved guards (4 GiB corners, configurations VerifyConfig rejects):
             # counted; reported through the verdict only once it is listed centrally as a known finding
-            s = signature("degenerate: " + m)
+            s = DEGEN_SIG.get(m) or signature("degenerate: " + m)
             degen[m] = degen.get(m, 0) + 1
             if s in ksigs:
                 run.add_oracle_failure(s, m, brief(c))
+        for m in c.get("tie") or []:
+            run.add_corr_break("D: case %s (%s): modelling assumption violated: %s" % (c.get("id"), c.get("kind"), m), brief(c))
         kinds[c["kind"]] = kinds.get(c["kind"], 0) + 1
         g = c.get("gen", "")
         for part in g.split(", "):
